@@ -240,6 +240,26 @@ func shortType(c *Ctx, n *types.Named) string {
 	return p + "." + n.Obj().Name()
 }
 
+// accessOK: the access holds lock gl of its base object (exclusively for a write), or sits in a helper / closure whose every call or creation site does.
+func (la *lockAnalysis) accessOK(a *memberAccess, gl string) (bool, string) {
+	c := la.c
+	base := core.Term(a.base)
+	if a.ctor || heldFor(a.held, base, gl, a.write) {
+		return true, ""
+	}
+	if heldFor(a.held, base, gl, false) && a.write {
+		return false, "only read-locked"
+	}
+	if p, isP := core.Strip(a.base).(*ssa.Parameter); isP && p.Parent() == a.fn {
+		return la.callersHold(a.fn, paramIdx(p), gl, a.write, 3, map[*ssa.Function]bool{})
+	}
+	if a.fn.Parent() != nil {
+		return la.closureCreatedUnder(a.fn, base, gl, a.write)
+	}
+	_ = c
+	return false, "the base object is not the function's parameter"
+}
+
 // closureCreatedUnder: every creation site of the closure fn (not started as a goroutine) holds lock field on base.
 func (la *lockAnalysis) closureCreatedUnder(fn *ssa.Function, base, field string, needExcl bool) (bool, string) {
 	c := la.c
